@@ -18,19 +18,23 @@ from ..lib.leangen import llist
 LEVEL = "proof"
 CLAIM = dict(
     category="proof",
-    text="Theorems in DarsiaProps.C07 for every shape (any dimension, extents incl. 0/1): Fortran numbering is a bijection "
-    "(encF/decF), faces <-> [0,num_faces) bijection, face-count formula, connectivity = (cell idx, cell idx+e_a) with "
-    "first<second differing only along the normal axis, reverse connectivity is the exact inverse and -1 iff the cell is "
-    "on the outer boundary in that direction, interior/exterior partition each axis, interior faces (dim>=2) are exactly "
-    "those whose tangential neighbour faces all exist; corner tables (tabulated from the code) lie on the face. "
-    "Tie: every public Grid table equals the model on all 186 shapes of the stated range plus random larger/thin shapes.",
-    note="connectivity / reverse_connectivity are modelled as the code builds them (initial array + assignments through index arrays, "
-    "connTable / revTable) and PROVED equal to the pointwise conn / rev (conn_table_eq, rev_table_eq, rev_table_inverse); the driver "
-    "dumps the scatter-built tables. numpy slicing + ravel('F') of the index arrays is modelled pointwise (tied by the exhaustive correspondence).",
+    text="Theorems in DarsiaProps.C07 for the model on every shape (any number of axes, any extents); the code builds grids only for shapes "
+    "passing gridGuard (dims 1-3, extents >= 1, len(voxel_size) = dim; error classes tied by a correspondence): Fortran numbering is a "
+    "bijection (encF/decF), faces <-> [0,num_faces) bijection, face-count formula, connectivity = (cell idx, cell idx+e_a) with first<second "
+    "differing only along the normal axis, reverse connectivity is the exact inverse and -1 iff the cell is on the outer boundary in that "
+    "direction - all also for the tables AS THE CODE BUILDS THEM (connTable / revTable: initial array + assignments through index arrays, "
+    "conn_table_eq, rev_table_eq, rev_table_inverse); interior/exterior partition each axis; interior faces in dimension >= 2 are exactly those "
+    "whose tangential neighbour faces all exist, while in 1-D the code slices the NORMAL axis (interior = all faces but the first and last, "
+    "interior_1d) - a different notion, stated as it is; corner tables (tabulated from the code) lie on the face. generate_grid is Grid(image."
+    "num_voxels, image.voxel_size): no separate theorem, tied by shape / voxel-size / full-table comparison on fresh images and after in-place "
+    "shape changes. Tie: every public Grid table (incl. cell_index, face_index, faces_shape) equals the model on all 186 shapes of the stated "
+    "range plus random larger/thin shapes.",
+    note="connectivity / reverse_connectivity are dumped from the scatter-built model; numpy slicing + ravel('F') of the index arrays is modelled "
+    "pointwise (tied by the exhaustive correspondence).",
     technique="Lean 4 proof (induction over the shape list) + exhaustive-in-range differential correspondence + G1 tables",
 )
 
-WHATS = ["counts", "faces", "conn", "rev", "interior", "exterior", "cci"]
+WHATS = ["counts", "faces", "conn", "rev", "interior", "exterior", "cci", "cellindex", "faceindex", "facesshape"]
 
 
 def all_shapes():
@@ -70,6 +74,12 @@ def impl_line(g, what):
             return sep([ints(g.exterior_faces[a]) for a in range(dim)])
         if what == "cci":
             return ints(g.cell_corner_indices)
+        if what == "cellindex":
+            return ints(np.asarray(g.cell_index).ravel("F"))
+        if what == "faceindex":
+            return sep([ints(np.asarray(g.face_index[a]).ravel("F")) for a in range(dim)])
+        if what == "facesshape":
+            return sep([ints(g.faces_shape[a]) for a in range(dim)])
     except Exception as e:  # noqa: BLE001
         return repr(Raised(e))
     raise KeyError(what)
@@ -198,6 +208,11 @@ def oracle_grid(ctx, g, shape, tag):
             exter = [int(x) for x in np.asarray(g.exterior_faces[a]).ravel()]
             if sorted(inter + exter) != sorted(int(x) for x in g.faces[a]) or set(inter) & set(exter):
                 return fail("interior_exterior_partition", f"axis {a}: interior {inter} and exterior {exter} do not partition faces", axis=a)
+            if dim == 1:
+                # the code's 1-D convention (slices the NORMAL axis): all faces but the first and the last
+                want1 = [int(x) for x in np.asarray(g.faces[0], dtype=int)[1:-1]]
+                if inter != want1:
+                    return fail("interior_1d", f"1-D interior faces {inter} are not faces[1:-1] = {want1}")
             if dim >= 2:
                 # interior = all tangential neighbour faces exist
                 for f in np.asarray(g.faces[a], dtype=int):
@@ -260,6 +275,12 @@ def run(ctx):
         lines.append(request("corners", (1,) * dim))
         g = make_grid(d, (2,) * dim)
         impl.append(repr(g) if isinstance(g, Raised) else sep([ints(r) for r in np.asarray(g.cell_corners)]))
+    # which constructor calls are accepted at all (error class as data): dims 0 / 4, extents 0, voxel-size lists of wrong length
+    for shape, nh in [((), 0), ((2, 2, 2, 2), 4), ((0,), 1), ((0, 3), 2), ((3, 0), 2), ((2, 0, 2), 3), ((3, 4), 3), ((3, 4), 1), ((3,), 0), ((3,), 2),
+                      ((2, 2, 2), 2), ((1,), 1), ((1, 1), 2), ((1, 1, 1), 3), ((5, 2), 2)]:
+        lines.append(f"guard {len(shape)} " + " ".join(map(str, shape)) + f" {nh} " + " ".join(["1"] * nh))
+        g = call(d.Grid, tuple(shape), [1.0] * nh)
+        impl.append(repr(g) if isinstance(g, Raised) else "ok")
     ctx.correspond("grid-tables", lines, impl)
     ctx.cov["exhaustive"] = True
     ctx.cov["shapes_exhaustive"] = len(shapes)
@@ -279,6 +300,14 @@ def run(ctx):
         gshape = tuple(int(s) for s in g.shape)
         if gshape != shape:
             ctx.fail(f"C07:generate_grid:shape:dim={dim}", f"generate_grid shape {gshape} != image shape {shape}", {"shape": list(shape)})
+            continue
+        try:
+            vs_ok = bool(np.allclose(np.asarray(g.voxel_size, dtype=float), np.asarray(dims, dtype=float) / np.asarray(shape)))
+        except Exception:  # noqa: BLE001
+            vs_ok = False
+        if not vs_ok:
+            ctx.fail(f"C07:generate_grid:voxel_size:dim={dim}", f"generate_grid voxel size {np.asarray(g.voxel_size).tolist()} != dimensions/shape {dims}/{shape}",
+                     {"shape": list(shape), "dimensions": dims})
             continue
         grids.append((shape, g))
         for what in WHATS:
